@@ -94,6 +94,8 @@ static verif::Result exec(const Script& sc, const verif::Config& cfg)
 //                  (`tspin`) until its trigger() succeeds; all four waits anywhere.
 //  F4 shutdown   : constructed active, nobody activates; several resetters / triggerers / waiters; one
 //                  thread starts with trigger or reset.
+//  F5 storm      : several threads that only activate, one thread that only resets (no waits at all): stale
+//                  activators (two that both read `activated = false`) clearing `triggered` around reset()'s loop.
 static const std::vector<std::string> kObs = {"isActive", "isTriggered"};
 
 static std::string pickw(Rng& r, const std::vector<std::string>& v)
@@ -104,7 +106,7 @@ static std::string pickw(Rng& r, const std::vector<std::string>& v)
 static Script gen(Rng& r, int size)
 {
     Script s;
-    int fam = r.below(10);
+    int fam = r.below(12);
     int nothers = 1 + r.below(2 + size);
     if (fam < 4) {
         // F1
@@ -208,6 +210,18 @@ static Script gen(Rng& r, int size)
                 s.threads.push_back(ops);
             }
         }
+    } else if (fam >= 10) {
+        // F5
+        s.config = "0";
+        int nact = 3 + r.below(2);
+        for (int t = 0; t < nact; ++t) {
+            std::vector<std::string> ops(size_t(3 + r.below(3 + size)), "activate");
+            if (r.chance(1, 4)) {
+                ops.push_back(pickw(r, kObs));
+            }
+            s.threads.push_back(ops);
+        }
+        s.threads.push_back(std::vector<std::string>(size_t(3 + r.below(3 + size)), "reset"));
     } else {
         // F4
         s.config = "1";
@@ -266,6 +280,9 @@ int main(int argc, char** argv)
         // overlapping activators (timed waiters only: a late clear may undo a trigger)
         parse("0;activate;activate;trigger,waitFor;waitFor"),
         parse("0;activate,trigger;activate,trigger;reset,waitForAct;waitFor"),
+        // stale activators around reset()'s unlock/trigger/lock loop
+        parse("0;activate;activate;reset"),
+        parse("0;activate,activate,activate;activate,activate,activate;activate,activate,activate;reset,reset,reset,reset"),
         // controller cycles
         parse("0;activate,trigger,reset,activate,reset;wait,wait;waitFor,wait;trigger,trigger"),
     };
